@@ -12,4 +12,9 @@ package netty
 func VerifAttach(pl Pipeline, ch Channel) { pl.(*pipeline).channel = ch }
 
 // VerifCloseErr reads the error the channel was closed with.
-func VerifCloseErr(ch Channel) error { return ch.(*channel).closeErr }
+func VerifCloseErr(ch Channel) error {
+	if r, ok := ch.(*channel).closeErr.Load().(closeReason); ok {
+		return r.err
+	}
+	return nil
+}
